@@ -37,7 +37,7 @@ pub fn prop_bit(name: &str) -> Option<u32> {
     ALL_PROPS.iter().find(|(_, n)| *n == name).map(|(b, _)| *b)
 }
 
-pub const MAX_CHAIN_LEN: usize = 320;
+pub const MAX_CHAIN_LEN: usize = 1100;
 pub const MAX_SEARCHERS: usize = 3;
 pub const MAX_DEPTH: usize = 8;
 
@@ -693,6 +693,31 @@ impl World {
                     ),
                 ));
             }
+            // the list through the iterator's other methods
+            if self.chain.iter().count() != len || self.chain.iter().last() != self.rc.moves.last().copied() {
+                return Err(self.fail(C13, "refinement", "iter().count() / iter().last() disagree with the accepted moves".into()));
+            }
+            if len > 0 {
+                let k = self.step % len;
+                let via_nth = self.chain.iter().nth(k);
+                let via_skip = self.chain.iter().skip(k).next();
+                let tail: Vec<Move> = self.chain.iter().skip(k).collect();
+                let stepped: Vec<Move> = self.chain.iter().step_by(2).collect();
+                let want_stepped: Vec<Move> = self.rc.moves.iter().copied().step_by(2).collect();
+                if via_nth != Some(self.rc.moves[k]) || via_skip != Some(self.rc.moves[k]) || tail != self.rc.moves[k..] || stepped != want_stepped {
+                    return Err(self.fail(
+                        C13,
+                        "refinement",
+                        format!("iter().nth({k}) / skip({k}) / step_by(2) do not yield the accepted moves"),
+                    ));
+                }
+                let mut it = self.chain.iter();
+                let lo = it.size_hint().0;
+                if lo > len || it.size_hint().1.map_or(false, |hi| hi < len) {
+                    return Err(self.fail(C13, "refinement", format!("iter().size_hint() = {:?} for {} moves", it.size_hint(), len)));
+                }
+                let _ = it.next();
+            }
             for i in 0..len {
                 if self.chain.get(i) != self.rc.moves[i] {
                     return Err(self.fail(C13, "refinement", format!("get({}) differs from the accepted move", i)));
@@ -853,7 +878,9 @@ impl World {
             return Ok(());
         }
         let len = self.rc.len();
-        for i in 0..=len {
+        // every position of a game of ordinary length; an evenly spread sample of a very long one
+        let stride = if len > 256 { len / 64 } else { 1 };
+        for i in (0..=len).step_by(stride.max(1)) {
             let want = self.rc.count_key(&self.rc.keys[i]);
             let got = self.chain.verif_repeat().count(self.rc.expect_board(i));
             if got != want {
@@ -2098,6 +2125,32 @@ impl World {
         };
         self.stats.hit("probe.raw-accepted");
         self.check_valid(&nb, "board converted from an edited raw board")?;
+        // the by-reference entry point must give the very same board
+        match Board::try_from(&raw) {
+            Ok(nb2) => {
+                if let Some(d) = Full::of(&nb2).diff(&Full::of(&nb)) {
+                    for p in [C02, C05] {
+                        if self.on(p) {
+                            return Err(self.fail(
+                                p,
+                                if p == C02 { "invalid-position" } else { "hidden-state" },
+                                format!("Board::try_from(&raw) and Board::try_from(raw) give different boards for the same raw board (by reference vs by value): {}", d),
+                            ));
+                        }
+                    }
+                }
+                self.check_valid(&nb2, "board converted from an edited raw board by reference")?;
+                if self.on(C05) {
+                    let f = Full::of(&nb2);
+                    self.record_position(&nb2, &f)?;
+                }
+            }
+            Err(e) => {
+                if self.on(C02) {
+                    return Err(self.fail(C02, "invalid-position", format!("Board::try_from(raw) accepts a raw board that Board::try_from(&raw) refuses: {}", e)));
+                }
+            }
+        }
         if self.on(C05) {
             let f = Full::of(&nb);
             self.record_position(&nb, &f)?;
